@@ -162,6 +162,9 @@ pub enum Fault {
     KillRestart(u16),
     /// SIGSTOP for ms, then SIGCONT (silent drop)
     Freeze(u16),
+    /// SIGKILL, then n requests one after the other while it is down (each may take until a dead cached
+    /// connection has timed out, so a later one makes the connector try to reconnect in vain), then restart
+    LongOutage(u8),
 }
 
 #[derive(Clone, Copy, Debug, PartialEq, Eq, Serialize, Deserialize)]
@@ -369,6 +372,30 @@ pub async fn run_case(c: &Case, recovery_probes: u32) -> Result<(bool, serde_jso
                 }
                 restart_b(&mut fx).await.map_err(|e| Failure::new("infrastructure", e))?;
             }
+            Fault::LongOutage(n) => {
+                match &mut fx.b {
+                    Up::Proc(b) => {
+                        if let Some(mut b) = b.take() {
+                            b.kill();
+                        }
+                    }
+                    Up::Fake(f) => f.down().await,
+                }
+                for j in 0..*n {
+                    let r = probe(fx.http, origin, Duration::from_secs(45)).await;
+                    if let Err(e) = &r {
+                        if e == "timeout" {
+                            return Err(Failure::new(
+                                format!("hangs-while-upstream-down:{}", kind),
+                                format!("step {}: with the upstream killed, request #{} through the {} connector got neither a tunnel nor a failure reply within 45 s", si, j, kind),
+                            ));
+                        }
+                    }
+                    log.push(format!("while-down #{}: {:?}", j, r.map(|d| d.as_millis())));
+                    tokio::time::sleep(Duration::from_millis(500)).await;
+                }
+                restart_b(&mut fx).await.map_err(|e| Failure::new("infrastructure", e))?;
+            }
             Fault::Freeze(ms) => {
                 match &fx.b {
                     Up::Proc(Some(b)) => b.signal(libc::SIGSTOP),
@@ -426,7 +453,7 @@ pub async fn run_case(c: &Case, recovery_probes: u32) -> Result<(bool, serde_jso
             Some(k) => k,
             None => {
                 return Err(Failure::new(
-                    format!("no-recovery:{}:{:?}:{}", kind, phase, if matches!(fault, Fault::Freeze(_)) { "freeze" } else { "kill-restart" }),
+                    format!("no-recovery:{}:{:?}:{}", kind, phase, match fault { Fault::Freeze(_) => "freeze", Fault::LongOutage(_) => "long-outage", _ => "kill-restart" }),
                     format!(
                         "step {}: {:.0} s after the upstream came back ({:?} in phase {:?}), {} consecutive requests through the {} connector still failed: {:?}",
                         si,
@@ -476,6 +503,10 @@ pub fn cases(tier: Tier, seed: u64) -> Vec<Case> {
         // one sequence per kind with two outages; more in the thorough tier
         v.push(Case { kind, steps: vec![(Phase::IdleAfterTraffic, Fault::KillRestart(700)), (Phase::MidTransfer, Fault::KillRestart(100))] });
         v.push(Case { kind, steps: vec![(Phase::DuringConnect, Fault::Freeze(1500)), (Phase::IdleNoTraffic, Fault::KillRestart(0))] });
+        // an outage long enough for a second request to find the cached connection closed and the upstream still down
+        if tier == Tier::Thorough || kind == 0 || kind == 3 {
+            v.push(Case { kind, steps: vec![(Phase::IdleAfterTraffic, Fault::LongOutage(2))] });
+        }
         if tier == Tier::Thorough {
             let mut k = seed.wrapping_add(kind as u64).wrapping_mul(0x9E3779B97F4A7C15) | 1;
             for _ in 0..12 {
@@ -502,7 +533,7 @@ impl SubCheck for OutageCheck {
         "outage"
     }
     fn rule(&self) -> String {
-        "fault sequences against real processes: proxy A (idle timeout 3 s) routes through an upstream: a second real redproxy B for connector kinds {http, socks5, socks4, quic with its shared cached connection, loadbalance[http, socks5]}, the origin itself for the direct connector, and harness-implemented HTTP-CONNECT / SOCKS5 proxies that can stall inside the upstream handshake and die with RST; faults {SIGKILL (fake: listener and all connections dropped with RST) + restart on the same ports after 0 / 0.1 / 0.7 / 1 / 5 s, SIGSTOP for 0.5-3.5 s then SIGCONT (fake: accept, read the request, never answer, then RST)} in phases {idle without prior traffic, idle after traffic, a tunnel open mid-transfer, a request started during the outage}, 2 outages per sequence (quick: 2 sequences per kind; thorough: +12 generated sequences of 1-4 outages per kind), while a reference echo tunnel through the direct connector runs a round trip every 150 ms; oracle: a request while the upstream is down fails in bounded time (45 s), a tunnel open across a kill is closed within 10 s, after the upstream is back some request among the next 30 (1.5 s apart) succeeds and the following three as well, the reference tunnel never loses a byte or waits more than 2.5 s; non-trivial = a fault outside the idle-no-traffic phase or >= 2 outages".into()
+        "fault sequences against real processes: proxy A (idle timeout 3 s) routes through an upstream: a second real redproxy B for connector kinds {http, socks5, socks4, quic with its shared cached connection, loadbalance[http, socks5]}, the origin itself for the direct connector, and harness-implemented HTTP-CONNECT / SOCKS5 proxies that can stall inside the upstream handshake and die with RST; faults {SIGKILL (fake: listener and all connections dropped with RST) + restart on the same ports after 0 / 0.1 / 0.7 / 1 / 5 s, SIGSTOP for 0.5-3.5 s then SIGCONT (fake: accept, read the request, never answer, then RST), a long outage during which two requests are made one after the other (the second finds a closed cached connection and an upstream that is still down) before the restart} in phases {idle without prior traffic, idle after traffic, a tunnel open mid-transfer, a request started during the outage}, 2 outages per sequence (quick: 2 sequences per kind; thorough: +12 generated sequences of 1-4 outages per kind), while a reference echo tunnel through the direct connector runs a round trip every 150 ms; oracle: a request while the upstream is down fails in bounded time (45 s), a tunnel open across a kill is closed within 10 s, after the upstream is back some request among the next 30 (1.5 s apart) succeeds and the following three as well, the reference tunnel never loses a byte or waits more than 2.5 s; non-trivial = a fault outside the idle-no-traffic phase or >= 2 outages".into()
     }
     fn run(&self, part: &mut Part) {
         let all = cases(part.tier, part.seed);
@@ -528,6 +559,10 @@ impl SubCheck for OutageCheck {
             }
             out
         });
+        // evidence samples: the interesting kinds first (the shared QUIC connection, then the balancer)
+        let mut results = results;
+        results.sort_by_key(|(c, _)| match c.kind as usize % NK { 3 => 0, 4 => 1, _ => 2 });
+        part.max_samples = 6;
         for (c, r) in results {
             let mut info = CaseInfo::default();
             info.class(KINDS[c.kind as usize % NK]);
@@ -538,7 +573,7 @@ impl SubCheck for OutageCheck {
             match r {
                 Ok((nt, sample)) => {
                     info.nontrivial = nt;
-                    if part.samples.len() < 5 {
+                    if part.samples.len() < 6 {
                         info.sample = Some(sample);
                     }
                     part.account(vcore::digest_json(&c), info);
